@@ -68,6 +68,7 @@ type Scenario struct {
 	Linger  int    `json:"linger,omitempty"`  // ms the clients stay connected after their last write
 	Rounds  int    `json:"rounds,omitempty"`  // the whole (concurrent) scenario is repeated Rounds+1 times
 	Serial  bool   `json:"serial,omitempty"`  // connections one after the other instead of concurrently
+	Reply   bool   `json:"reply,omitempty"`   // the linger ends as soon as the server has answered; replied connections are counted
 	Comment string `json:"comment,omitempty"` // for the replay file only
 }
 
@@ -86,6 +87,7 @@ type RawObs struct {
 	Growing   bool  `json:"growing"`    // live heap kept growing while every client was idle
 	HeapMB    []int `json:"heap_mb,omitempty"`
 	Probe     bool  `json:"probe"` // a fresh echo connection was served afterwards
+	Replied   int   `json:"replied"` // connections on which the server wrote at least one byte (raw tcp only)
 	Late      int   `json:"late,omitempty"`
 	Poisoned  bool  `json:"poisoned,omitempty"` // the child stops after this scenario
 	Ms        int   `json:"ms"`
@@ -276,16 +278,29 @@ func (qc *qconn) Close() error {
 
 // playTCP plays one raw tcp connection; returns true when the server closed its side
 // (its handler returned) within the hang limit.
-func playTCP(port int, remote net.Addr, cn Conn, linger, hang time.Duration) bool {
+func playTCP(port int, remote net.Addr, cn Conn, linger, hang time.Duration, untilReply bool) bool {
 	sc, pc := lab.Pipe(&net.TCPAddr{IP: localIP, Port: port}, remote)
 	if !inject(sc) {
 		return false
 	}
 	cc := newQconn(pc)
+	gotReply := make(chan struct{})
+	var replyOnce sync.Once
 	if cn.SSH != nil {
 		playSSH(cc, cn.SSH) // the ssh client reads the transport itself
 	} else {
-		go io.Copy(io.Discard, pc) // drain replies
+		go func() { // drain replies; note the first one
+			buf := make([]byte, 4096)
+			for {
+				n, err := pc.Read(buf)
+				if n > 0 {
+					replyOnce.Do(func() { close(gotReply) })
+				}
+				if err != nil {
+					return
+				}
+			}
+		}()
 		for k := 0; k <= cn.Rep; k++ {
 			for _, s := range cn.Segs {
 				cc.Write(s)
@@ -293,13 +308,23 @@ func playTCP(port int, remote net.Addr, cn Conn, linger, hang time.Duration) boo
 		}
 	}
 	if linger > 0 {
+		var early <-chan struct{}
+		if untilReply {
+			early = gotReply
+		}
 		select {
 		case <-sc.Closed():
+		case <-early:
 		case <-time.After(linger):
 		}
 	}
 	cc.Close()
-	return true
+	select {
+	case <-gotReply:
+		return true
+	default:
+		return false
+	}
 }
 
 // handlersRunning counts goroutines that are inside server.(*Honeytrap).handle: the
@@ -402,9 +427,12 @@ func runScenario(sc Scenario, hang time.Duration) RawObs {
 					}
 					return
 				}
-				playTCP(d.Port, &net.TCPAddr{IP: ip, Port: rport}, cn, time.Duration(sc.Linger)*time.Millisecond, hang)
+				rep := playTCP(d.Port, &net.TCPAddr{IP: ip, Port: rport}, cn, time.Duration(sc.Linger)*time.Millisecond, hang, sc.Reply)
 				mu.Lock()
 				ob.Conns++
+				if rep {
+					ob.Replied++
+				}
 				mu.Unlock()
 			}
 			wg.Add(1)
